@@ -452,6 +452,8 @@ pub fn keygen<const N: usize>(seed: [u8; 32]) -> (SecretKey<N>, PublicKey<N>) {
 /// [1]: https://falcon-sign.info/falcon.pdf
 pub fn sign<const N: usize>(m: &[u8], sk: &SecretKey<N>) -> Signature<N> {
     let mut rng = thread_rng();
+    #[cfg(falcon_rust_verif)]
+    let mut rng = crate::verif_hooks::SignRng::wrap(rng);
     let mut r = [0u8; 40];
     rng.fill_bytes(&mut r);
 
@@ -499,6 +501,8 @@ pub fn sign<const N: usize>(m: &[u8], sk: &SecretKey<N>) -> Signature<N> {
                     .sum::<f64>())
                 / (n as f64);
 
+            #[cfg(falcon_rust_verif)]
+            let length_squared = crate::verif_hooks::fault_norm(length_squared);
             if length_squared > (bound as f64) {
                 continue;
             }
@@ -514,6 +518,8 @@ pub fn sign<const N: usize>(m: &[u8], sk: &SecretKey<N>) -> Signature<N> {
             params.sig_bytelen - 41,
         );
 
+        #[cfg(falcon_rust_verif)]
+        let maybe_s = crate::verif_hooks::fault_compress(maybe_s);
         match maybe_s {
             Some(s) => {
                 break s;
@@ -1495,5 +1501,19 @@ mod test {
                 .map(|i| i.value())
                 .collect_vec()
         );
+    }
+}
+
+#[cfg(falcon_rust_verif)]
+pub(crate) mod verif_access {
+    use super::*;
+    pub(crate) fn sk_b0<const N: usize>(sk: &SecretKey<N>) -> [Polynomial<i16>; 4] {
+        sk.b0.clone()
+    }
+    pub(crate) fn sk_tree<const N: usize>(sk: &SecretKey<N>) -> &LdlTree {
+        &sk.tree
+    }
+    pub(crate) fn pk_h<const N: usize>(pk: &PublicKey<N>) -> &Polynomial<Felt> {
+        &pk.h
     }
 }
